@@ -204,7 +204,8 @@ def nodeRun (C : Crypto) (padSize addrLen : Nat) (mb : Member) (r : Request)
 
 Share byte strings are tokens: `[1,i,c]` valid share of member `i` on content number `c`;
 `[2,i,c]` the same share with one trailing byte (decodes to the same point); `[3,i]` index `i`
-followed by junk; `[4,i,c]` share of a foreign group's member; `[]`, `[x]` too short for an index;
+followed by junk; `[4,i,c]` share of a foreign group's member; `[5,v,s]` member `s`'s share relabelled
+with index `v`; `[]`, `[x]` too short for an index;
 `[9,c]` the group signature on content `c`.  `contents` is the table of content byte strings. -/
 
 def contentIdx (contents : List Bytes) (c : Bytes) : Option Nat :=
@@ -274,6 +275,13 @@ def parseSigTok (s : String) : Option (Option Bytes) :=
   | ['S', '1'] => some (some [1])
   | 'J' :: r => (num (String.ofList r)).map (fun i => some [3, i])
   | 'G' :: r => (num (String.ofList r)).map (fun i => some [4, i, 255])
+  | 'R' :: r =>
+    match (String.ofList r).splitOn "." with
+    | [a, b] => do
+      let v ← num a
+      let src ← num b
+      pure (some [5, v, src])
+    | _ => none
   | k :: r =>
     if k = 'V' ∨ k = 'T' then
       match (String.ofList r).splitOn "." with
